@@ -64,7 +64,18 @@ UntrackPattern(p) ==
   /\ p \in patterns /\ patterns' = patterns \ {p} /\ UNCHANGED <<files, pre>>
   /\ Log([a |-> "untrackpattern", name |-> p, lfs |-> LfsSet(files, patterns \ {p})])
 
-Next == \/ \E n \in Names : TrackFile(n) \/ TrackFileAgain(n) \/ UntrackFile(n)
+\* Invocations of git lfs track that end in an error exit.  "dotgitattributes" / "dotgitstar": the
+\* pattern (.gitattributes, .git*) would cover Git's own files, of which .gitattributes is in the
+\* index: git-lfs refuses it.  "missingfile": the pattern (*.dat) matches a file that is in the index
+\* but gone from the work tree, so it cannot be touched.  Whatever the exit, nothing changes for
+\* any name or pattern that was not asked for (no name of Names matches *.dat).
+FailKinds == {"dotgitattributes", "dotgitstar", "missingfile"}
+TrackFails(k) ==
+  /\ k \in FailKinds /\ pre # "absent" /\ UNCHANGED <<files, patterns, pre>>
+  /\ Log([a |-> "trackfails", name |-> <<>>, kind |-> k, lfs |-> LfsSet(files, patterns)])
+
+Next == \/ \E k \in FailKinds : TrackFails(k)
+        \/ \E n \in Names : TrackFile(n) \/ TrackFileAgain(n) \/ UntrackFile(n)
         \/ \E p \in PatternSet : TrackPattern(p) \/ TrackPatternAgain(p) \/ UntrackPattern(p)
 Spec == Init /\ [][Next]_vars
 
